@@ -1,6 +1,7 @@
 """Implementation side of C15 (real nested Parallel runs).   usage: c15_nest.py <logdir> '<json tree>'
 
-tree : {"backend": null|"loky"|"threading"|"multiprocessing"|"sequential", "n_jobs": n, "ntasks": m, "child": tree|null}
+tree : {"backend": null|"loky"|"threading"|"multiprocessing"|"sequential", "n_jobs": n, "ntasks": m, "child": tree|null,
+        "prefer": null|"processes"|"threads", "require": null|"sharedmem"}
 Alternatively  {"seq": [[n_jobs, ntasks], ...], "pin": bool}  : a REUSE sequence -- the calls Parallel(n_jobs=n) are made one
 after the other in THIS process on the default loky backend, so that the reusable executor is resized between them
 (pin=true wraps them in parallel_config('loky', inner_max_num_threads=1) so that the worker environment, hence the executor,
@@ -69,6 +70,10 @@ def run_node(logdir, tree, path):
     kw = {} if tree["n_jobs"] is None else {"n_jobs": tree["n_jobs"]}
     if tree["backend"] is not None:
         kw["backend"] = tree["backend"]
+    if tree.get("prefer") is not None:
+        kw["prefer"] = tree["prefer"]
+    if tree.get("require") is not None:
+        kw["require"] = tree["require"]
     info = {"e": "call", "path": path, "pid": os.getpid(), "tid": threading.get_ident()}
     try:
         with warnings.catch_warnings():
